@@ -87,6 +87,28 @@ func families() []fam {
 			add(fmt.Sprintf("power-mirrored(%g-(1-x)^%g)", c, pw), 0, 1, true, func(x float64) float64 { return c - math.Pow(1-x, pw) })
 		}
 	}
+	// strongly concave / convex with the root close to an end: after one or two iterations every trial point lies on
+	// one side of the root, and the end that did not move is still the better one
+	for _, c := range []float64{0.01, 0.1} {
+		c := c
+		add(fmt.Sprintf("sqrt(x)-%g", c), 0, 1, true, func(x float64) float64 { return math.Sqrt(math.Max(x, 0)) - c })
+		add(fmt.Sprintf("%g-sqrt(1-x)", c), 0, 1, true, func(x float64) float64 { return c - math.Sqrt(math.Max(1-x, 0)) })
+	}
+	// the root exactly at (or a hair inside) an end of an interval whose ends are not dyadic: f(min) = 0 or f(max) = 0
+	// is allowed by the statement, and the secant point max-(max-min)*fmax/(fmax-fmin) is then computed at the very end
+	ends := []float64{-2, -0.7, 0, 0.1, 0.3, 0.7, 1, 10}
+	for i, lo := range ends {
+		for _, hi := range ends[i+1:] {
+			lo, hi := lo, hi
+			for _, a := range []float64{0.5, 3} {
+				a := a
+				add(fmt.Sprintf("root-at-min(a=%g,[%g,%g])", a, lo, hi), lo, hi, true, func(x float64) float64 { return a * (x - lo) })
+				add(fmt.Sprintf("root-at-max(a=%g,[%g,%g])", a, lo, hi), lo, hi, true, func(x float64) float64 { return a * (x - hi) })
+			}
+			add(fmt.Sprintf("root-just-inside-min([%g,%g])", lo, hi), lo, hi, true, func(x float64) float64 { return (x - lo) - 1e-13*(hi-lo) })
+			add(fmt.Sprintf("flat-zero-then-rising([%g,%g])", lo, hi), lo, hi, true, func(x float64) float64 { return math.Max(0, x-(lo+0.25*(hi-lo))) })
+		}
+	}
 	// non-monotone with a bracketed sign change
 	add("three-roots", -1, 1, false, func(x float64) float64 { return (x + 0.8) * (x - 0.1) * (x - 0.7) })
 	add("damped-sine", 0, 3, false, func(x float64) float64 { return math.Exp(-x)*math.Sin(5*x) + 0.05*(x-1.5) })
@@ -164,6 +186,9 @@ func runRoot(rc rootCase, r *vf.Rec) {
 		dfn = func(float64) float64 { return 1 }
 	}
 	x0 := f.min + rc.guess*(f.max-f.min)
+	if rc.guess == 1 || x0 > f.max { // min + (max-min) can round past max
+		x0 = f.max
+	}
 	d := map[string]interface{}{"function": f.name, "interval": []float64{f.min, f.max}, "derivative": rc.deriv, "initial_guess": x0, "tolerance": rc.tol, "convergence_limit": rc.conv, "max_iterations": rc.budget}
 	var x, val float64
 	panicked := func() (p interface{}) {
@@ -543,7 +568,7 @@ func (e *enum) CrashSig(i int64, tail string) (string, string) {
 func Spec() *vf.Check {
 	return &vf.Check{
 		ID: "C18", Level: "exploration", BlockSize: 512,
-		Rule: "FindRoot: 57 functions on an interval (linear, cubic, x^p-c and its mirror image (secant iterations stall), saturating exponential, piecewise-linear with flat segments and kinks, steep ramp, routing-residual shapes, antisymmetric end values, flat-then-steep / steep-then-flat kinks with the root near an end; non-monotone: three roots, damped sine) x derivative {exact,nil,zero,wrong sign,constant slope bound,half the slope,constant 1} x initial guess {min,1/4,1/2,max} x tolerance {1e-3,1e-6,1e-9} x convergence limit {1e-8,1e-12} x budget {1..8,10,12,15,20,25,30,40,60}; every evaluation point logged. " +
+		Rule: "FindRoot: 229 functions on an interval (linear, cubic, the root exactly at / a hair inside either end of 28 intervals with non-dyadic ends, x^p-c and its mirror image (secant iterations stall), sqrt(x)-c and its mirror image (root near an end), saturating exponential, piecewise-linear with flat segments and kinks, steep ramp, routing-residual shapes, antisymmetric end values, flat-then-steep / steep-then-flat kinks with the root near an end; non-monotone: three roots, damped sine) x derivative {exact,nil,zero,wrong sign,constant slope bound,half the slope,constant 1} x initial guess {min,1/4,1/2,max} x tolerance {1e-3,1e-6,1e-9} x convergence limit {1e-8,1e-12} x budget {1..8,10,12,15,20,25,30,40,60}; every evaluation point logged. " +
 			"Piecewise: every strictly increasing knot vector of length 2..4 (quick) / 2..5 (thorough) from {-2,0,0.1,0.3,0.7,1,10} x every y assignment from {-1,0,0.1,0.3,0.7,5} x queries at every knot, mid/quarter points, the floats adjacent to each knot, below, above, NaN, +-Inf x {contiguous, column view, stepped view} tables; and every ORDERED pair of knot vectors: every lookup in the first followed by every lookup in the second (another array, and the same array rewritten in place), second result against the interpolant. distinct_nontrivial = cases that passed all clauses.",
 		Assumptions: []string{"'budget suffices for interval halving' is taken as: slope bound x (max-min)/2^budget < tolerance/2 and slope bound x 2 x convergenceLimit < tolerance/2 (sound for any bracketing method that includes the midpoint every iteration and may stop once the bracket is narrower than twice the convergence limit)", "lattice values only"},
 		Build: func(tier string) vf.Enumeration {
